@@ -2,8 +2,9 @@
 (***************************************************************************)
 (* Several databases and a router (property C16).                          *)
 (*                                                                         *)
-(* One app with models A, B, C; a router sends every model to exactly one   *)
-(* of two databases (Init: every assignment).  The app gains one evolution  *)
+(* One app with models A, B, C; a router allows every model on one of two   *)
+(* databases or on BOTH (allow_migrate true on both; writes go to `default`) *)
+(* (Init: every assignment).  The app gains one evolution  *)
 (* (any sequence of <= MaxLen mutations over the models), then each         *)
 (* database is evolved in turn (Init: either order).                        *)
 (*                                                                         *)
@@ -15,7 +16,7 @@ EXTENDS Naturals, Sequences, FiniteSets, TLC, Json
 
 CONSTANTS MaxLen, EmitRecords
 
-VARIABLES route,     \* model name -> database
+VARIABLES route,     \* model name -> "default" | "other" | "both"
           evo,       \* the evolution: sequence of mutations
           target,    \* the models after the evolution (what models.py says)
           order,     \* databases in the order they are evolved
@@ -57,14 +58,17 @@ Valid(ms, mu) ==
 RECURSIVE ApplyAll(_, _)
 ApplyAll(ms, seq) == IF seq = <<>> THEN ms ELSE ApplyAll(Apply(ms, Head(seq)), Tail(seq))
 
-Only(ms, r, d) == [n \in { x \in DOMAIN ms : RouteOf(r, x) = d } |-> ms[n]]
+Only(ms, r, d) == [n \in { x \in DOMAIN ms : RouteOf(r, x) \in {d, "both"} } |-> ms[n]]
 All0 == [m \in Models |-> Fresh]
 
-Init == /\ route \in [Models -> DBs]
+Routes == DBs \cup {"both"}
+On(r, m, d) == RouteOf(r, m) = d \/ RouteOf(r, m) = "both"      \* schema of m is allowed on d
+
+Init == /\ route \in [Models -> Routes]
         /\ order \in { <<"default", "other">>, <<"other", "default">> }
         /\ evo = <<>> /\ target = All0
         /\ db = [d \in DBs |-> Only(All0, route, d)]
-        /\ sig = [d \in DBs |-> { m \in Models : route[m] = d }]
+        /\ sig = [d \in DBs |-> { m \in Models : route[m] \in {d, "both"} }]
         /\ recorded = [d \in DBs |-> FALSE]
         /\ phase = "build" /\ done = <<>>
 
@@ -77,7 +81,8 @@ Deploy == /\ phase = "build" /\ evo # <<>> /\ phase' = "evolve"
 (* the mutations that concern database d, in order *)
 RECURSIVE Mine(_, _, _)
 Mine(seq, r, d) == IF seq = <<>> THEN <<>>
-                   ELSE (IF RouteOf(r, Head(seq).m) = d THEN <<Head(seq)>> ELSE <<>>) \o Mine(Tail(seq), r, d)
+                   ELSE (IF RouteOf(r, Head(seq).m) \in {d, "both"} THEN <<Head(seq)>> ELSE <<>>)
+                        \o Mine(Tail(seq), r, d)
 
 Evolve(d) == /\ phase = "evolve" /\ Len(done) < Len(order) /\ order[Len(done) + 1] = d
              /\ db' = [db EXCEPT ![d] = ApplyAll(@, Mine(evo, route, d))]
@@ -91,8 +96,8 @@ Spec == Init /\ [][Next]_vars
 
 ---------------------------------------------------------------------------
 (* C16 *)
-OnlyRoutedModels == \A d \in DBs : /\ \A n \in DOMAIN db[d] : RouteOf(route, n) = d
-                                   /\ \A n \in sig[d] : RouteOf(route, n) = d
+OnlyRoutedModels == \A d \in DBs : /\ \A n \in DOMAIN db[d] : RouteOf(route, n) \in {d, "both"}
+                                   /\ \A n \in sig[d] : RouteOf(route, n) \in {d, "both"}
 OtherDatabaseUntouched ==
     [][ \A d \in DBs : Evolve(d) => \A o \in DBs \ {d} : db'[o] = db[o] /\ sig'[o] = sig[o]
                                                          /\ recorded'[o] = recorded[o] ]_vars
